@@ -231,8 +231,45 @@ FK_KIND = ["CREATE TABLE zz_p (id integer primary key)", "CREATE TABLE zz_c (p i
            "INSERT INTO zz_c VALUES (42)"]
 
 
+# Explicit transaction control inside the replayed source. name -> (statements, last statement fails,
+# a transaction is still open on the dev connection when the command cleans up)
+TX_KINDS = {
+    "tx-commit-then-fail-in-open-tx": (["BEGIN", "CREATE TABLE zz_ta (id int)", "COMMIT", "BEGIN", "CREATE TABLE zz_tb (id int)",
+                                        "CREATE TABLE zz_tb (id int)"], True, True),
+    "tx-fail-in-open-tx": (["BEGIN", "CREATE TABLE zz_t1 (id int)", "INSERT INTO zz_missing VALUES (1)"], True, True),
+    "savepoint-fail-inside": (["SAVEPOINT zz_sp", "CREATE TABLE zz_s1 (id int)", "CREATE TABLE zz_s1 (id int)"], True, True),
+    "tx-left-open": (["BEGIN", "CREATE TABLE zz_open (id int)"], False, True),
+    "savepoint-left-open": (["SAVEPOINT zz_sp2", "CREATE TABLE zz_open2 (id int)", "INSERT INTO zz_open2 VALUES (1)"], False, True),
+    "tx-balanced": (["BEGIN", "CREATE TABLE zz_bal (id int)", "INSERT INTO zz_bal VALUES (1)", "COMMIT"], False, False),
+    "tx-rolled-back": (["BEGIN", "CREATE TABLE zz_rb (id int)", "ROLLBACK"], False, False),
+    "commit-without-begin": (["CREATE TABLE zz_cw (id int)", "COMMIT"], True, False),
+    "rollback-to-unknown-savepoint": (["CREATE TABLE zz_r (id int)", "ROLLBACK TO zz_nosuch"], True, False),
+}
+TX_OPEN_KINDS = [k for k, v in TX_KINDS.items() if v[2]]
+
+
 def fail_block(kind):
+    if kind in TX_KINDS:
+        return TX_KINDS[kind][0]
     return FK_KIND if kind == "fk" else FAIL_KINDS[kind]
+
+
+def kind_fails(kind):
+    return TX_KINDS[kind][1] if kind in TX_KINDS else True
+
+
+def first_table(name, x):
+    return {"A": "t1", "B": "p", "C": "s"}[name] + x
+
+
+# Failures AFTER a replay in which every statement succeeded (state reading, formatting, writing, target).
+#   kind -> command families it applies to
+LATE_KINDS = {
+    "exclude-glob": ["inspect", "sdiff", "apply"],          # --exclude '[bad': evaluated when the state is read back
+    "format-template": ["inspect", "sdiff", "apply", "diff", "lint"],   # --format '{{.Nope}}': fails when the result is printed
+    "bad-name": ["diff"],                                   # migrate diff sub/newmig: writing the new file fails
+    "target-conflict": ["apply"],                           # the plan fails on the TARGET (a view has the table's name)
+}
 
 
 def with_failure(stmts, fail):
@@ -331,7 +368,18 @@ SQL_CMDS = [k for k, v in CMDS.items() if not v.get("hcl_only")]
 HCL_CMDS = [k for k, v in CMDS.items() if v.get("hcl_only")]
 
 
-def argv(cmd, src, dev_url, target):
+def argv(cmd, src, dev_url, target, late=None):
+    a = _argv(cmd, src, dev_url, target)
+    if late == "exclude-glob":
+        a += ["--exclude", "[bad"]
+    elif late == "format-template":
+        a += ["--format", "{{.Nope}}"]
+    elif late == "bad-name":
+        a[a.index("newmig")] = "nosuchsubdir/newmig"
+    return a
+
+
+def _argv(cmd, src, dev_url, target):
     f = lambda n: "file://" + os.path.join(src, n)
     d = ["--dev-url", dev_url]
     c = CMDS[cmd]
@@ -381,6 +429,8 @@ def outcome_class(rc, out, err):
         return "refused-not-clean"
     if "checksum" in t:
         return "checksum-error"
+    if "cannot VACUUM" in t:
+        return "restore-error"
     if "executing statement" in t or "read migration directory state" in t or "read state from" in t:
         return "statement-error"
     if "panic:" in t or "goroutine " in t:
